@@ -7,8 +7,9 @@ PID = "C20"
 MODULE, PKG, BIN = "cesium", "./verifh/c20", "c20"
 COQ_IMPORTS = "From Synnax Require Import Common.Base Cesium.Relay Monitors.Mon_C20."
 CASE_TYPE = "case_t"
-COUNTS = {"quick": 80, "thorough": 3000}
-SHARD = 10
+COUNTS = {"quick": 400, "thorough": 3000}
+SHARD = 20
+RACE = True
 PROCS = 4
 HARNESS_TIMEOUT = 900
 HARNESS_ENV = {"C20_WORKERS": "4"}
@@ -35,7 +36,7 @@ def gen_case(rng, tier, flavour=None):
     nw = ns = 0
     closed = False
     paused_writes = 0
-    n = rng.randrange(8, 30 if tier == "quick" else 45)
+    n = rng.randrange(10, 34 if tier == "quick" else 45)
     malformed = rng.random() < 0.3    # this script may contain malformed steps
     will_close_db = rng.random() < 0.12
 
@@ -47,15 +48,18 @@ def gen_case(rng, tier, flavour=None):
         nonlocal nw
         nw += 1
         vs = rand_keys(VIRT, 1 if not persisted else 0)
+        if len(vs) < 2 and rng.random() < 0.6:
+            vs = sorted(set(vs) | {rng.choice(VIRT), rng.choice(VIRT)})
         cs = list(vs)
         if persisted and (rng.random() < 0.55 or not cs):
             cs += [IDX, DATA] if rng.random() < 0.7 else [DATA, IDX]
         if malformed and rng.random() < 0.08:
             cs = cs + [77]                                 # unknown channel
-        if rng.random() < 0.6:
+        if rng.random() < 0.45:
             auths = [rng.choice(AUTHS)]
         else:
             auths = [rng.choice(AUTHS) for _ in cs]
+            auths[rng.randrange(len(auths))] = 255      # usually in control of something
             if malformed and rng.random() < 0.1 and len(auths) > 2:
                 auths = auths[:-1]                        # wrong authority count
         mode = rng.choice(["ps", "ps", "ps", "so", "so", "so", "po"])
@@ -88,6 +92,10 @@ def gen_case(rng, tier, flavour=None):
                 ks = [k for k in ks if k != DATA] or [IDX]  # partial index group
             elif x < 0.22 and ks and ks[0] in VIRT:
                 bad = True                                # wrong data type
+        if vs and rng.random() < 0.02:
+            # boundary: the frame mask of telem.Frame handles up to 128 entries
+            m = rng.choice([126, 127, 128, 129, 130])
+            ks = [vs[i % len(vs)] for i in range(m)]
         o = {"op": "write", "w": w, "keys": ks}
         if bad:
             o["bad"] = True
@@ -98,13 +106,15 @@ def gen_case(rng, tier, flavour=None):
         ns += 1
         pool = allkeys + ([77] if malformed else [])
         ks = rand_keys(pool, 0)
-        if rng.random() < 0.5:
+        if rng.random() < 0.6:
             ks = list(allkeys)
         ops.append({"op": "open_streamer", "s": ns, "keys": ks})
         strs[ns] = {"open": True, "paused": False}
 
     open_writer()
-    if rng.random() < 0.8:
+    if rng.random() < 0.6:
+        open_writer()
+    if rng.random() < 0.85:
         open_streamer()
     while len(ops) < n:
         live_w = [w for w, d in writers.items() if d["open"]]
@@ -131,7 +141,7 @@ def gen_case(rng, tier, flavour=None):
             else:
                 break
             continue
-        if x < 0.40:
+        if x < 0.42:
             if any_paused:
                 if paused_writes >= 2:
                     continue
@@ -312,6 +322,8 @@ def histogram(case, r):
     ops, outs = full_script(case, r or {})
     for o, x in zip(ops, outs):
         ks.append("op=" + o["op"])
+        if o["op"] == "write" and len(o.get("keys") or []) > 100:
+            ks.append("wide_frame(>=126 entries)")
         if o["op"] == "write":
             ks.append("write:" + ("err" if x.get("e") not in ("", "skip") else "skip" if x.get("e") else
                                   ("authorized" if x.get("a") else "partly-unauthorized")))
@@ -322,6 +334,8 @@ def histogram(case, r):
     n = sum(len(s["items"]) for s in (r or {}).get("streams") or [])
     ks.append("received=%s" % ("0" if n == 0 else "1-5" if n <= 5 else "6-15" if n <= 15 else ">15"))
     if r:
+        m = r.get("max_ms", 0)
+        ks.append("slowest_call=%s" % ("<10ms" if m < 10 else "<100ms" if m < 100 else "<1s" if m < 1000 else "<5s" if m < 5000 else ">=5s"))
         ks.append("probe_rounds=%s" % ("<=3" if r.get("syncs", 0) <= 3 else "4-10" if r.get("syncs", 0) <= 10 else ">10"))
     return ks
 
@@ -347,26 +361,56 @@ def model_dump(case, r):
     return coq_print(PID, COQ_IMPORTS, "Eval vm_compute in model_dump (%s)." % to_coq(case, r))[-8000:]
 
 
-RULE = ("seeded scripts of 8-30 driver operations over 3 virtual channels (+ an index/data pair in 40%): 1-4 writers "
-        "(persist+stream, stream-only, persist-only; single or per-channel authorities from {255,200,100,50,0}), 0-3 "
-        "streamers with arbitrary key sets; operations open/close writer, write (subset of held keys; 30% of scripts "
-        "carry malformed steps: never-opened key, duplicate key, partial index group, wrong data type, unknown channel, "
-        "wrong authority count), set-authority, open/re-subscribe/close streamer, pause/resume consumer (15%), barrier, "
-        "DB close (12%); relay capacity from {1,2,3,8,1000}. Non-trivial = frames of >=2 writers received, some "
-        "streamer received >=3 frames, some write had keys excluded as unauthorized, and a re-subscribe / streamer "
-        "close / pause / DB close took effect; distinct by hash.")
-TRUSTED = ["hook cesium/export_verif_c20.go (WithVerifStreamingConfig: relay capacity and slow-consumer timeout)",
-           "harness hooks/cesium/verifh/c20: real cesium.DB on an in-memory FS, real writers/streamers/relay; tags in "
-           "sample values; barriers by probe frames on two dedicated virtual channels + a sentinel streamer"]
-ASSUMES = ["a consumer that is never paused is 'always ready': it takes a frame within the slow-consumer timeout "
-           "(>= 1.5 s in every case)",
-           "writers use Sync mode, so a returned Write has pushed its frame into the relay inlet",
-           "index groups are opened and written whole; authorities < 256"]
-PARTIAL = ("'never blocks writers indefinitely' is proved as absence of deadlock states of the model while the DB is "
-           "open (C20_no_writer_deadlock_partial) and observed on the real code with a 20 s watchdog on every call; "
-           "Go data races, timer behaviour and real scheduling are not modelled")
-READY = False
-TECHNIQUE = "Coq proof (invariants over a labelled transition system) + trace inclusion of the implementation in the LTS by vm_compute"
+RULE = ("seeded sequential driver scripts of 10-34 operations (real relay / streamer / writer goroutines run concurrently "
+        "with the driver) over 3 virtual channels (+ an index/data pair in 40%): 1-4 writers (persist+stream, stream-only, "
+        "persist-only; single or per-channel authorities from {255,200,100,50,0}, so several writers contend per channel), "
+        "0-3 streamers with arbitrary key sets (also empty, also unknown keys); operations: open/close writer, write (subset of "
+        "held keys, index groups whole; 30% of scripts carry malformed steps: never-opened key, duplicate key, partial index "
+        "group, wrong data type, unknown channel, wrong authority count), set-authority, open / re-subscribe / close streamer, "
+        "pause / resume consumer (15% of scripts, slow-consumer timeout 1.5 s there, 5 s otherwise), barrier, DB close (12%, "
+        "followed by further writes and operations); relay capacity from {1,2,3,8,1000}, streamer outlet buffer from {0,1,4}. "
+        "Non-trivial = frames of >=2 writers received, some streamer received >=3 frames, some write had keys excluded as "
+        "unauthorized, and a re-subscribe / streamer close / pause / DB close took effect; distinct by hash.")
+TRUSTED = ["hook cesium/export_verif_c20.go (WithVerifStreamingConfig: relay capacity and slow-consumer timeout, otherwise unexported)",
+           "harness hooks/cesium/verifh/c20 (built with -race): real cesium.DB on an in-memory FS, real writers / streamers / relay; "
+           "a unique (writer, sequence) tag in every sample; an always-ready consumer goroutine per streamer; barriers by probe "
+           "frames on two dedicated virtual channels (probe key alternates with every re-subscribe so a received probe shows the "
+           "active subscription generation) + a sentinel streamer; a 20 s watchdog on every call",
+           "the monitor computes 'authorized' from the script with the control rule of C05 (highest authority, earliest open; "
+           "virtual channels shared, unary channels exclusive)"]
+ASSUMES = ["a consumer that is never paused is 'always ready': it takes a frame within the slow-consumer timeout (>= 1.5 s in every case)",
+           "writers are opened in Sync mode, so a returned Write has pushed its frame into the relay inlet (asynchronous writers are not modelled)",
+           "index groups are opened and written whole; authorities < 256; writer / streamer ids are not reused",
+           "delivery of one frame to all connected streamers is one atomic model step (the relay goroutine serves them sequentially "
+           "and accepts no connect / disconnect meanwhile)"]
+PARTIAL = ("'never blocks writers indefinitely' is proved as absence of deadlock states of the model (C20_no_writer_deadlock_partial, "
+           "C20_streamer_close_progress_partial, C20_hidden_steps_terminate, C20_other_operations_never_block) and OBSERVED on the real "
+           "code with a 20 s watchdog on every Write / Close / Flow / DB.Close call of every case; Go data races (observed with -race), "
+           "timer behaviour and real scheduling are not modelled. Completeness is proved per delivery step (every dequeued frame is "
+           "handed to every connected ready streamer; frames leave the inlet only by delivery or DB close), not as one closed formula "
+           "over whole runs.")
+READY = True
+TECHNIQUE = ("Coq proof: invariants over a labelled transition system (all interleavings of driver operations with hidden relay / "
+             "streamer steps) + trace inclusion of the implementation in the LTS decided by an executable checker (subset "
+             "construction over hidden states, proved sound and complete) evaluated by vm_compute on every case")
 DESIGN_REF = "DESIGN.md §8 C20"
-LEVEL_TEXT = "see report"
-LEVEL_NOTE = "see report"
+LEVEL_TEXT = ("Machine-checked Coq theorems over an executable LTS copying cesium's streaming pipeline (streamWriter.write incl. exclusion "
+              "of unauthorized keys and the index-group rule, control gates, relay inlet FIFO with capacity, DynamicDeltaMultiplier "
+              "fan-out with timeout-drop only for a not-ready consumer, streamer filter / re-subscribe / disconnect, DB.Close): for every "
+              "reachable state of every interleaving, each inbox is a tag-subsequence of the pushed frames in push order without "
+              "duplicates and in each writer's order (C20_subsequence_in_order); items come only from stream-enabled writers' pushed "
+              "frames and never carry an unauthorized key (C20_received_from_streaming_writes, C20_pushes_only_authorized_series); every "
+              "receive step filters by the subscription held at that step (C20_filtered_by_current_subscription); every dequeued frame "
+              "reaches every connected ready streamer and frames leave the inlet only by delivery or DB close (C20_complete_if_ready, "
+              "C20_fifo_discipline); no deadlock state for writers / streamer close (…_partial). The model is tied to /repo on every run: "
+              "the real DB is driven through generated scripts, and an executable checker — proved to accept exactly the observations of "
+              "LTS runs (C20_every_run_accepted, C20_accepted_is_a_run) — decides inside Coq whether what every streamer received, and "
+              "every operation's outcome, is allowed by the model; a decidable monitor states the property's clauses directly on the "
+              "implementation's observations and yields the replay.")
+LEVEL_NOTE = ("Trusted: Coq kernel / vm_compute; hand-written model (tied by correspondence, not translation); harness, hook "
+              "WithVerifStreamingConfig, probe-frame barriers, generator. Partial: the real 'never blocks indefinitely' is observed with a "
+              "20 s watchdog, proved only as deadlock freedom of the model; data races observed with -race, not proved; completeness "
+              "stated per delivery step. Not modelled: asynchronous (non-Sync) writers, auto-index writers, control digests, real timers. "
+              "All theorems closed under the global context. Findings F60 (series of never-opened channels relayed) and F61 (Write blocks "
+              "forever on the dead relay inlet after DB.Close) were found by this check and repaired by fix: commits; "
+              "C20_unowned_series_refuted / C20_dead_inlet_refuted keep the witnesses.")
